@@ -50,7 +50,7 @@ func sourcesElem(v ssa.Value) (idx ssa.Value, base ssa.Value, ok bool) {
 		return
 	}
 	owner, f, b, okf := FieldOf(ia.X)
-	if !okf || owner != brokerT || f != "sources" {
+	if !okf || !ownerIs(owner, brokerT) || f != "sources" {
 		return
 	}
 	return ia.Index, b, true
@@ -129,7 +129,7 @@ func c09R1R2(p *Prog, r *Report, inv *LenInvariants, rv *Rendezvous) {
 					if !isRg {
 						return
 					}
-					if o, f, _, okf := FieldOf(outer.X); !okf || o != brokerT || f != "sources" {
+					if o, f, _, okf := FieldOf(outer.X); !okf || !ownerIs(o, brokerT) || f != "sources" {
 						return
 					}
 				}
@@ -177,9 +177,17 @@ func c09R1R2(p *Prog, r *Report, inv *LenInvariants, rv *Rendezvous) {
 						edits = append(edits, setEdit{in, "replace", x.Call.Args[0], nil, rx})
 					}
 				}
+				// a helper that is handed the table and gives every element a new, empty set
+				if callee := x.Call.StaticCallee(); callee != nil && isModuleFn(callee) {
+					for i, a := range x.Call.Args {
+						if owner, f, _, okf := FieldOf(a); okf && ownerIs(owner, brokerT) && f == "sources" && c09FillsWithEmpty(callee, i) {
+							edits = append(edits, setEdit{in, "replaceAll", nil, nil, nil})
+						}
+					}
+				}
 			case *ssa.Store:
 				if ia, ok := x.Addr.(*ssa.IndexAddr); ok {
-					if owner, f, _, okf := FieldOf(ia.X); okf && owner == brokerT && f == "sources" {
+					if owner, f, _, okf := FieldOf(ia.X); okf && ownerIs(owner, brokerT) && f == "sources" {
 						edits = append(edits, setEdit{in, "replace", nil, nil, ia.Index})
 					}
 				}
@@ -197,8 +205,8 @@ func c09R1R2(p *Prog, r *Report, inv *LenInvariants, rv *Rendezvous) {
 		pc := g.PC
 		fresh := false // constructor: the broker is allocated here
 		Instrs(fn, func(in ssa.Instruction) {
-			if a, ok := in.(*ssa.Alloc); ok && a.Heap && typeName(a.Type()) == brokerT {
-				fresh = true
+			if a, ok := in.(*ssa.Alloc); ok && (a.Heap && typeName(a.Type()) == brokerT || embeddedIn[brokerT][typeName(a.Type())]) {
+				fresh = true // (also the value constructor of a struct embedded in the broker)
 			}
 		})
 		usedStores := map[*ssa.Store]bool{}
@@ -297,7 +305,7 @@ func c09R1R2(p *Prog, r *Report, inv *LenInvariants, rv *Rendezvous) {
 					r.Check(ln != nil && g.Prove(ln.Sub(keyP).Sub(one), e.in), "C09.R2", name+": source < nchannels", p.InstrPos(e.in), "proven from dominating guards and the derived equal-length invariant", "the source index of an inserted connection is not proven below the number of channels: an out-of-range source takes effect (is reported, and panics distribution)")
 					r.Check(g.ProveNE0(keyP.Sub(rxP), e.in), "C09.R2", name+": source != receiver", p.InstrPos(e.in), "self-connection excluded by a dominating test", "a self-connection can be inserted")
 				}
-			case "replace":
+			case "replace", "replaceAll":
 				if fresh {
 					r.OK("C09.R1", name+": constructor", p.InstrPos(e.in), "set created empty in the constructor; the counter of a fresh broker is zero")
 					continue
@@ -308,9 +316,12 @@ func c09R1R2(p *Prog, r *Report, inv *LenInvariants, rv *Rendezvous) {
 				l := LoopContaining(loops, e.in)
 				okLoop := false
 				if l != nil {
-					if o, f := l.OverField(); o == brokerT && f == "sources" && l.EveryIteration(e.in.Block()) && pc.Of(e.rx).Equal(pc.Of(l.Idx)) {
+					if o, f := l.OverField(); ownerIs(o, brokerT) && f == "sources" && l.EveryIteration(e.in.Block()) && pc.Of(e.rx).Equal(pc.Of(l.Idx)) {
 						okLoop = true
 					}
+				}
+				if e.kind == "replaceAll" {
+					okLoop = true // the helper visits every element (c09FillsWithEmpty)
 				}
 				st, isSt := e.in.(*ssa.Store)
 				emptyVal := false
@@ -375,7 +386,7 @@ func c09R1R2(p *Prog, r *Report, inv *LenInvariants, rv *Rendezvous) {
 				return
 			}
 			owner, f, _, okf := FieldOf(ia.X)
-			if !okf || owner != brokerT || (f != "sources" && f != "latestPrimaries") {
+			if !okf || !ownerIs(owner, brokerT) || (f != "sources" && f != "latestPrimaries") {
 				return
 			}
 			// skip the edit sites already covered and fresh-constructor loops
@@ -525,7 +536,7 @@ func counterLoadOf(st *ssa.Store) (ssa.Value, bool) {
 			walk(x.Y, d+1)
 		case *ssa.UnOp:
 			if x.Op == token.MUL {
-				if o, f, _, ok := FieldOf(x); ok && o == brokerT && f == "nconnections" {
+				if o, f, _, ok := FieldOf(x); ok && ownerIs(o, brokerT) && f == "nconnections" {
 					ld = x
 				}
 			}
@@ -548,7 +559,7 @@ func isRangeIdx(loops []*RangeLoop, v ssa.Value) (*RangeLoop, bool) {
 func writesSources(p *Prog, fn *ssa.Function, memo map[*ssa.Function]bool) bool {
 	eff := p.TransEffects(fn, nil, nil)
 	for k := range eff.W {
-		if k.Owner == brokerT && (strings.HasPrefix(k.Field, "sources") || k.Field == "nconnections") {
+		if ownerIs(k.Owner, brokerT) && (strings.HasPrefix(k.Field, "sources") || k.Field == "nconnections") {
 			return true
 		}
 	}
@@ -566,7 +577,7 @@ func c09R3(p *Prog, r *Report, rv *Rendezvous) {
 	okOuter, okInner, okStore := false, false, false
 	var outer *RangeLoop
 	for _, l := range RangeLoops(cgs) {
-		if o, f := l.OverField(); o == brokerT && f == "sources" {
+		if o, f := l.OverField(); ownerIs(o, brokerT) && f == "sources" {
 			okOuter = true
 			outer = l
 		}
@@ -839,7 +850,7 @@ func c09R4(p *Prog, r *Report) {
 	InstrsDeep(dist, 2, func(dd DeepInstr) {
 		if st, ok := dd.In.(*ssa.Store); ok {
 			if ia, ok := st.Addr.(*ssa.IndexAddr); ok {
-				if o, f, _, okf := FieldOf(ia.X); okf && o == brokerT && f == "latestPrimaries" {
+				if o, f, _, okf := FieldOf(ia.X); okf && ownerIs(o, brokerT) && f == "latestPrimaries" {
 					// the refresh is keyed by the key of a range over a map (the merge only reads the table)
 					if ex, isEx := ia.Index.(*ssa.Extract); isEx {
 						if _, isNx := ex.Tuple.(*ssa.Next); isNx {
@@ -924,7 +935,7 @@ func c09R4(p *Prog, r *Report) {
 		if !ok {
 			return
 		}
-		if o, f, _, okf := FieldOf(ia.X); !okf || o != brokerT || f != "latestPrimaries" {
+		if o, f, _, okf := FieldOf(ia.X); !okf || !ownerIs(o, brokerT) || f != "latestPrimaries" {
 			return
 		}
 		ex, isEx := ia.Index.(*ssa.Extract)
@@ -1484,4 +1495,37 @@ func c09R9(p *Prog, r *Report) {
 	if n == 0 {
 		r.Unk("C09.R9", "walk over the edit request", p.Pos(top.Pos()), "no loop over the request's Connections map found in the request function or its helpers")
 	}
+}
+
+
+// c09FillsWithEmpty: fn stores a new empty map into every element of its slice parameter number k
+// (a loop over the whole parameter, the store in every iteration) and stores nothing else there.
+func c09FillsWithEmpty(fn *ssa.Function, k int) bool {
+	if fn == nil || fn.Blocks == nil || k >= len(fn.Params) {
+		return false
+	}
+	prm := fn.Params[k]
+	loops := RangeLoops(fn)
+	n, good := 0, true
+	Instrs(fn, func(in ssa.Instruction) {
+		st, ok := in.(*ssa.Store)
+		if !ok {
+			return
+		}
+		ia, ok := st.Addr.(*ssa.IndexAddr)
+		if !ok || ia.X != ssa.Value(prm) {
+			return
+		}
+		n++
+		mk, isMk := st.Val.(*ssa.MakeMap)
+		if !isMk || mk.Reserve != nil {
+			good = false
+			return
+		}
+		l := LoopContaining(loops, in)
+		if l == nil || l.Over != ssa.Value(prm) || !l.EveryIteration(in.Block()) || ia.Index != l.Idx {
+			good = false
+		}
+	})
+	return n == 1 && good
 }
